@@ -572,3 +572,86 @@ Proof.
     + cbn [set_others hh_others]. rewrite <- app_assoc. reflexivity.
     + cbn [set_others hh_others]. rewrite <- app_assoc. exact Hnd.
 Qed.
+
+(* ---- fileformat and #CHROM lines, and the whole header ---- *)
+
+Lemma p_u32_fmt : forall n, n < 4294967296 -> p_u32 (fmt_dec n) = Some n.
+Proof.
+  intros n H. unfold p_u32. pose proof (fmt_dec_nonempty n) as Hne.
+  destruct (fmt_dec n) as [|b t] eqn:E; [contradiction|]. rewrite <- E. rewrite parse_dec_fmt.
+  assert (Hlt : (n <? 4294967296) = true) by lia. now rewrite Hlt.
+Qed.
+
+Lemma p_fileformat_write : forall a b, a < 4294967296 -> b < 4294967296 ->
+  p_record (w_fileformat (a, b)) = Some (k_fileformat, s_VCFv ++ fmt_dec a ++ 46 :: fmt_dec b) /\
+  p_fileformat_value (s_VCFv ++ fmt_dec a ++ 46 :: fmt_dec b) = Some (a, b).
+Proof.
+  intros a b Ha Hb. split.
+  - unfold w_fileformat. cbn [fst snd]. apply p_record_line.
+    cbn. intros H; repeat (destruct H as [H|H]; [discriminate|]); destruct H.
+  - unfold p_fileformat_value. rewrite strip_prefix_app.
+    rewrite split_once_app by (apply fmt_dec_avoids; lia).
+    rewrite (p_u32_fmt a Ha), (p_u32_fmt b Hb). reflexivity.
+Qed.
+
+Definition set_samples (l : list (list N)) (h : vheader) : vheader :=
+  {| hh_ff := hh_ff h; hh_infos := hh_infos h; hh_filters := hh_filters h; hh_formats := hh_formats h;
+     hh_alts := hh_alts h; hh_contigs := hh_contigs h; hh_others := hh_others h; hh_samples := l |}.
+
+Lemma columns8_no_tab : Forall (fun p => ~ In 9 p) columns8.
+Proof. repeat constructor; cbn; intros H; repeat (destruct H as [H|H]; [discriminate|]); destruct H. Qed.
+
+Lemma p_lines_columns : forall h samples,
+  Forall (fun s => ~ In 9 s) samples -> NoDup samples ->
+  p_lines h [w_columns samples] = Some (set_samples samples h).
+Proof.
+  intros h samples Ht Hnd. cbn [p_lines].
+  assert (Hpre : strip_prefix c_CHROM (w_columns samples) <> None).
+  { unfold w_columns. destruct samples; cbn [columns8 app]; rewrite join_cons2; rewrite strip_prefix_app; discriminate. }
+  destruct (strip_prefix c_CHROM (w_columns samples)); [|contradiction].
+  assert (Hc : p_columns (w_columns samples) = Some samples).
+  { unfold p_columns, w_columns.
+    assert (Hall : Forall (fun p => ~ In 9 p) (columns8 ++ match samples with [] => [] | _ => k_FORMAT :: samples end)).
+    { apply Forall_app. split; [exact columns8_no_tab|]. destruct samples; [constructor|].
+      constructor; [cbn; intros H; repeat (destruct H as [H|H]; [discriminate|]); destruct H|exact Ht]. }
+    rewrite split_all_join; [|discriminate|exact Hall].
+    destruct samples as [|s0 ss].
+    - reflexivity.
+    - cbn [columns8 app]. cbn [seq forallb nth length Nat.leb andb skipn].
+      repeat rewrite bytes_eqb_refl. cbn [andb]. rewrite has_dup_nodup by exact Hnd. reflexivity. }
+  rewrite Hc. reflexivity.
+Qed.
+
+Definition header_ok (h : vheader) : Prop :=
+  fst (hh_ff h) < 4294967296 /\ snd (hh_ff h) < 4294967296 /\
+  (forall k, Forall (map_ok k) (get_maps k h) /\ NoDup (map m_id (get_maps k h))) /\
+  Forall (group_ok (hh_ff h)) (hh_others h) /\ NoDup (map fst (hh_others h)) /\
+  Forall (fun s => ~ In 9 s) (hh_samples h) /\ NoDup (hh_samples h).
+
+Definition h_init (ff : N * N) : vheader :=
+  {| hh_ff := ff; hh_infos := []; hh_filters := []; hh_formats := []; hh_alts := []; hh_contigs := [];
+     hh_others := []; hh_samples := [] |}.
+
+(* write -> parse identity for the whole header *)
+Theorem header_roundtrip : forall h ls, header_ok h -> write_header h = Some ls -> parse_header ls = Some h.
+Proof.
+  intros h ls (Ha & Hb & Hmaps & Hgs & Hgnd & Hst & Hsnd) Hw.
+  unfold write_header in Hw.
+  destruct (sequence (map (w_other_group (hh_ff h)) (hh_others h))) as [groups|] eqn:Eg; [|discriminate].
+  inversion Hw; subst ls. clear Hw.
+  destruct h as [[a b] infos filters formats alts contigs others samples].
+  cbn [hh_ff hh_infos hh_filters hh_formats hh_alts hh_contigs hh_others hh_samples fst snd] in *.
+  destruct (p_fileformat_write a b Ha Hb) as [Pr Pv].
+  unfold parse_header. rewrite Pr. cbn [bytes_eqb k_fileformat N.eqb Pos.eqb andb]. rewrite Pv.
+  fold (h_init (a, b)).
+  pose proof (Hmaps KInfo) as [M1 N1]. pose proof (Hmaps KFilter) as [M2 N2]. pose proof (Hmaps KFormat) as [M3 N3].
+  pose proof (Hmaps KAlt) as [M4 N4]. pose proof (Hmaps KContig) as [M5 N5].
+  cbn [get_maps hh_infos hh_filters hh_formats hh_alts hh_contigs] in *.
+  rewrite (p_lines_maps KInfo infos); [|exact M1|exact N1].
+  rewrite (p_lines_maps KFilter filters); [|exact M2|exact N2].
+  rewrite (p_lines_maps KFormat formats); [|exact M3|exact N3].
+  rewrite (p_lines_maps KAlt alts); [|exact M4|exact N4].
+  rewrite (p_lines_maps KContig contigs); [|exact M5|exact N5].
+  rewrite (p_lines_groups others _ groups); [|exact Hgs|exact Hgnd|exact Eg].
+  rewrite (p_lines_columns _ samples Hst Hsnd). reflexivity.
+Qed.
